@@ -67,11 +67,22 @@ def rule_routing(eng, rep, A, rule="C01-2.evaluated-points-come-from-the-clamp")
 REQUIRED = {("lo", "user.xl"), ("hi", "user.xu")}
 
 
-def rule_frames(eng, rep, kinds=("clamp", "scaling", "callback-frame"), rule_prefix="C01-4", sinks=("objfun", "soln.x"), exact_rule="C01-6.exactness-at-the-sinks"):
+def required_facts(cfg):
+    """The user's side(s) of the box that the configuration supplies: a missing bound is the package's own +/-1e20 default, nothing to enforce."""
+    req = set()
+    if cfg.bounds in ("both", "lower-only"):
+        req.add(("lo", "user.xl"))
+    if cfg.bounds in ("both", "upper-only"):
+        req.add(("hi", "user.xu"))
+    return req
+
+
+def rule_frames(eng, rep, kinds=("clamp", "scaling", "callback-frame"), rule_prefix="C01-4", sinks=("objfun", "soln.x"), exact_rule="C01-6.exactness-at-the-sinks",
+                configs=None, seen_issue=None):
     total_sites = 0
-    seen_issue = set()
+    seen_issue = set() if seen_issue is None else seen_issue
     sink_verdicts = {}
-    for cfg in frames.CONFIGS:
+    for cfg in (frames.CONFIGS if configs is None else configs):
         it = frames.analyse(eng, cfg)
         for (kind, nid), (fi, node) in sorted(it.sites.items(), key=lambda x: (x[0][0], getattr(x[1][1], "lineno", 0))):
             if kind not in kinds:
@@ -92,7 +103,7 @@ def rule_frames(eng, rep, kinds=("clamp", "scaling", "callback-frame"), rule_pre
             if role not in sinks:
                 continue
             key = (role, x.why, tuple(sorted(x.ex)))
-            have = REQUIRED <= set(x.ex)
+            have = required_facts(cfg) <= set(x.ex)
             site = "%s <- %s" % ("x handed to objfun" if role == "objfun" else "soln.x", x.why or "clamp")
             if have:
                 sink_verdicts.setdefault((role, "ok", None), []).append(cfg)
@@ -105,7 +116,7 @@ def rule_frames(eng, rep, kinds=("clamp", "scaling", "callback-frame"), rule_pre
             cfgtxt = ", ".join(sorted(set(repr(c) for c in cfgs)))
             what = "the x handed to objfun" if role == "objfun" else "soln.x"
             if verdict == "ok":
-                rep.ok(exact_rule, "%s [%s]" % (what, cfgtxt), "last operation on every path is a clamp against the user's lower and upper bounds (facts lo:user.xl, hi:user.xu)")
+                rep.ok(exact_rule, "%s [%s]" % (what, cfgtxt), "last operation on every path is a clamp against each bound the user supplied (facts lo:user.xl / hi:user.xu as the bound pattern requires)")
             else:
                 k, why = extra
                 rep.bad(exact_rule, "%s [%s]" % (what, cfgtxt), k,
@@ -197,10 +208,23 @@ def run(eng, rep):
     A = anchors(eng)
     c02.rule_single_sink(eng, rep, A, rule="C01-1.single-sink")
     rule_routing(eng, rep, A)
-    n = rule_frames(eng, rep)
+    seen = rep._frames_seen = set()
+    n = rule_frames(eng, rep, seen_issue=seen)
     rep.require_count("C01-4.frame-agreement", "clamp/scaling/callback sites analysed over all configurations", n, 100)
+    n1 = rule_frames(eng, rep, configs=frames.ONE_SIDED, seen_issue=seen)
+    rep.require_count("C01-4.frame-agreement", "clamp/scaling/callback sites analysed over the one-sided bound patterns", n1, 100)
     rule_shift_base(eng, rep)
     rule_scaling_needs_two_sided_bounds(eng, rep)
-    rep.extra["configurations"] = [repr(c) for c in frames.CONFIGS]
+    rep.extra["configurations"] = [repr(c) for c in frames.CONFIGS + frames.ONE_SIDED]
     from .mirrorrule import rule_mirror
     rule_mirror(eng, rep, 'C01-8.x0-is-pushed-onto-either-bound-symmetrically', ['solver.solve'])
+
+
+def thorough(eng, rep):
+    """Whole product scaling x projections x regulariser x bound pattern (32 configurations; the quick tier runs 12 of them)."""
+    done = set(repr(c) for c in frames.CONFIGS + frames.ONE_SIDED)
+    rest = [c for c in frames.FULL_PRODUCT if repr(c) not in done]
+    seen = getattr(rep, "_frames_seen", set())
+    n = rule_frames(eng, rep, configs=rest, seen_issue=seen)
+    rep.require_count("C01-4.frame-agreement", "clamp/scaling/callback sites analysed over the remaining %d configurations of the product" % len(rest), n, 100)
+    rep.extra["configurations"] = [repr(c) for c in frames.FULL_PRODUCT]
